@@ -16,7 +16,7 @@ pub const DEF: PropDef = PropDef {
     id: "C15",
     jobs,
     required,
-    rule: "one case = one ordered pair (x, y) of read items, each taken in one of its representations (item of region A, item of a second region B in a different state, borrow_as(&owned); for Huffman: raw container, encoded container, borrow_as), compared with ==, !=, partial_cmp and cmp and checked against ==, lexicographic cmp of the owned values: x == y <=> vx == vy, x != y <=> !(x == y), x.cmp(y) == vx.cmp(vy), partial_cmp == Some(cmp), (x == y) <=> (cmp == Equal); order laws (reflexivity, antisymmetry, transitivity) additionally checked directly on triples. Exhaustive: all vectors of length <= 3 (thorough: 4) over a 3-value domain (40 / 121 vectors, 1600 / 14641 ordered pairs x 9 representation pairs) for slice<mirror<u8>>, slice<string>, slice<slice<mirror<u8>>>, slice<mirror<usize>> with both compressing index containers, and HuffmanContainer<u8>; random longer vectors. Non-trivial = the two items are not the same index of the same region; distinct = distinct (composition, vx, vy, representation pair).",
+    rule: "one case = one ordered pair (x, y) of read items, each taken in one of its representations (item of region A, item of a second region B in a different state, item of a third region C whose items share their offsets with A's but hold other contents, borrow_as(&owned); for Huffman: raw container, encoded container, borrow_as), compared with ==, !=, partial_cmp and cmp and checked against ==, lexicographic cmp of the owned values: x == y <=> vx == vy, x != y <=> !(x == y), x.cmp(y) == vx.cmp(vy), partial_cmp == Some(cmp), (x == y) <=> (cmp == Equal); order laws (reflexivity, antisymmetry, transitivity) additionally checked directly on triples. Exhaustive: all vectors of length <= 3 (thorough: 4) over a 3-value domain (40 / 121 vectors, 1600 / 14641 ordered pairs x 16 representation pairs) for slice<mirror<u8>>, slice<string>, slice<slice<mirror<u8>>>, slice<mirror<usize>> with both compressing index containers, and HuffmanContainer<u8>; random longer vectors. Non-trivial = the two items are not the same index of the same region; distinct = distinct (composition, vx, vy, representation pair).",
     assumptions: &["ReadColumns and the other read items implement no comparison traits and are outside this property"],
 };
 
@@ -146,6 +146,25 @@ where
         for &k in &order {
             ib[k] = Some(b.push(&vals[k]));
         }
+        // region C: position k holds a vector of the same length as A's k-th vector but (where
+        // possible) other contents, so that items of A and C share their (start, end) ranges
+        let mut by_len: std::collections::BTreeMap<usize, Vec<usize>> = std::collections::BTreeMap::new();
+        for (k, v) in vals.iter().enumerate() {
+            by_len.entry(v.len()).or_default().push(k);
+        }
+        let mut twin_of: Vec<usize> = (0..vals.len()).collect();
+        for group in by_len.values() {
+            for (g, &k) in group.iter().enumerate() {
+                twin_of[k] = group[(g + 1) % group.len()];
+            }
+        }
+        let mut c = R::default();
+        let ic_at: Vec<R::Index> = (0..vals.len()).map(|k| c.push(&vals[twin_of[k]])).collect();
+        // index of vals[k] inside C: the position p with twin_of[p] == k
+        let mut pos_in_c: Vec<usize> = vec![0; vals.len()];
+        for (p, &t) in twin_of.iter().enumerate() {
+            pos_in_c[t] = p;
+        }
         let mut pairs = 0u64;
         let mut prefix = false;
         let mut equal_across = false;
@@ -154,11 +173,11 @@ where
                 if vx.len() < vy.len() && vy[..vx.len()] == vx[..] {
                     prefix = true;
                 }
-                let xs: [R::ReadItem<'_>; 3] = [a.index(ia[i]), b.index(ib[i].unwrap()), IntoOwned::borrow_as(vx)];
-                let ys: [R::ReadItem<'_>; 3] = [a.index(ia[j]), b.index(ib[j].unwrap()), IntoOwned::borrow_as(vy)];
+                let xs: [R::ReadItem<'_>; 4] = [a.index(ia[i]), b.index(ib[i].unwrap()), IntoOwned::borrow_as(vx), c.index(ic_at[pos_in_c[i]])];
+                let ys: [R::ReadItem<'_>; 4] = [a.index(ia[j]), b.index(ib[j].unwrap()), IntoOwned::borrow_as(vy), c.index(ic_at[pos_in_c[j]])];
                 for (rx, x) in xs.iter().enumerate() {
                     for (ry, y) in ys.iter().enumerate() {
-                        compare(x, y, vx, vy).map_err(|e| format!("representations ({rx}, {ry}) [0 = region A, 1 = region B, 2 = borrowed from owned]: {e}"))?;
+                        compare(x, y, vx, vy).map_err(|e| format!("representations ({rx}, {ry}) [0 = region A, 1 = region B, 2 = borrowed from owned, 3 = region C (same offsets as A, other contents)]: {e}"))?;
                         pairs += 1;
                         if rx != ry && vx == vy {
                             equal_across = true;
